@@ -99,6 +99,12 @@ def gen_history(seed):
         # two distinct code objects of the same class and size (what a batch
         # with two ranges on one lattice builds)
         codes.append(list(codes[0]))
+    # a code object that was already used (its k, d, logicals looked at)
+    # before it is Clifford-deformed in place, and only then simulated
+    codes = [list(c) for c in codes]
+    for c in codes:
+        if 'XZZX' in deformation_names(c[0]) and rng.random() < 0.25:
+            c.append('XZZX')
     noises = []
     for _ in range(rng.choice([1, 1, 2])):
         nz = dict(rng.choice(NOISES))
@@ -119,6 +125,8 @@ def gen_history(seed):
                     [None] + deformation_names(cname):
                 noises[0] = dict(NOISES[0])
         dname = rng.choice(DECODERS_FOR[cname])
+        if len(codes[ci]) > 2:
+            dname = 'BeliefPropagationOSDDecoder'   # handles non-CSS codes
         dec = {'name': dname, 'parameters': (
             {'max_bp_iter': rng.choice([5, 10]), 'osd_order': 0}
             if dname.startswith('Belief') else {})}
@@ -146,6 +154,7 @@ def gen_history(seed):
             # what a resumed batch does: a new process builds the simulation
             # again and loads the stored results into it
             ops.append({'op': 'reload', 'sim': rng.randrange(len(sims)),
+                        'via_file': rng.random() < 0.5,
                         'new_seed': (rng.randrange(1 << 32)
                                      if rng.random() < 0.7 else None)})
         elif r < 0.8:
@@ -244,6 +253,13 @@ class HistoryExec:
         from panqec.simulation import DirectSimulation
         plan = self.plan
         codes = [C[c[0]](*c[1]) for c in plan['codes']]
+        for c, obj in zip(plan['codes'], codes):
+            if len(c) > 2:
+                # used first (what constructing any simulation on it does),
+                # deformed afterwards
+                _ = (obj.n, obj.k, obj.d)
+                obj.deform(c[2])
+                self.sim.probe('code_deformed_in_place_after_first_use')
         noises = [PauliErrorModel(**nz) for nz in plan['noises']]
         out = []
         for sp in plan['sims']:
@@ -382,6 +398,8 @@ class HistoryExec:
                                        cls=NumpyEncoder))
         c = self.plan['codes'][sp['code']]
         code = C[c[0]](*c[1])
+        if len(c) > 2:
+            code.deform(c[2])
         noise = PauliErrorModel(**self.plan['noises'][sp['noise']])
         dec = D[sp['decoder']['name']](code, noise, sp['rate'],
                                        **sp['decoder'].get('parameters', {}))
@@ -393,7 +411,30 @@ class HistoryExec:
         if data['inputs'] != _json.loads(_json.dumps(
                 new.get_results_to_save()['inputs'], cls=NumpyEncoder)):
             raise HarnessError('rebuilt simulation has other inputs')
-        new.load_results_from_dict(data)
+        idents = [canon(_json.loads(_json.dumps(
+            s_.get_results_to_save()['inputs'], cls=NumpyEncoder)))
+            for s_ in self.objs]
+        if op.get('via_file') and len(set(idents)) == len(idents):
+            # (two simulations with identical inputs in one file is a user
+            # error outside the property: then the record is handed over
+            # directly)
+            # the way a resumed batch does it: one results file holding the
+            # records of ALL simulations, each simulation finds its own
+            import os as _os
+            from panqec.utils import save_json
+            path = f'/dev/shm/dst-c11-{_os.getpid()}-{self.sim.seed % 10**9}'\
+                   f'.json'
+            try:
+                save_json([s_.get_results_to_save() for s_ in self.objs],
+                          path)
+                new.load_results(path)
+            finally:
+                for p_ in (path, path + '.tmp'):
+                    if _os.path.exists(p_):
+                        _os.remove(p_)
+            self.sim.probe('reloaded_through_shared_results_file')
+        else:
+            new.load_results_from_dict(data)
         self.objs[i] = new
 
     def check_accounting(self, i, s, total, shots):
